@@ -21,3 +21,13 @@ Lemma c14_solver_race_free : racy_vars solver_solve_body = [].
 Proof. vm_compute. reflexivity. Qed.
 Lemma c14_wrapper_race_free : racy_vars solver_parallel_wrapper_body = [].
 Proof. vm_compute. reflexivity. Qed.
+
+(* solutionImpl.Copy draws the child's seed from the source solution's random
+   source: copies of one solution are taken from several goroutines (workers,
+   the collecting goroutine, user event handlers), the draw is under
+   randomMutex *)
+From NR Require Import Gen.Skeleton_copysync.
+Lemma c14_fp_copy : solution_copy_body = solution_copy_body_ref.
+Proof. vm_compute. reflexivity. Qed.
+Lemma c14_copy_seed_draw_locked : call_outside_lock "Int63" "randomMutex" solution_copy_body = false.
+Proof. vm_compute. reflexivity. Qed.
